@@ -122,7 +122,8 @@ def gen(rng, tier):
     # the server ends a connection whose request body it never read (error / panic / drop answered on an upload
     # head) while the client stays connected and silent: the slot must come back all the same
     for n in (1, 2):
-        for kind in ("err500", "panic", "drop"):
+        for kind in ("err500", "panic", "drop", "okclose", "abort", "reset"):
+            # okclose: the handler answers 200 without the body, the client reads the answer and goes away
             cases.append("srv %d %s e0:%s" % (n, " ".join(["C"] + ["c"] * n), kind))
             cases.append("srv %d %s l0 Q0 e0:%s" % (n, " ".join(["c"] * (n + 1)), kind))
     cases.append("srv 2 C C c c e0:err500 e1:drop l2 e2:close")
